@@ -7,7 +7,7 @@ Definition addr := list N.          (* raw address bytes, 1..255 of them *)
 Definition denom := N.              (* 0 stands for a syntactically invalid denomination *)
 Definition time := Z.               (* nanoseconds since the Unix epoch *)
 Definition coin := (denom * Z)%type.
-Definition coins := gmap denom Z.   (* canonical sdk.Coins: only positive entries *)
+Notation coins := (gmap denom Z).   (* canonical sdk.Coins: only positive entries *)
 
 Definition tzero : time := -62135596800000000000.   (* Go's zero time.Time, 0001-01-01T00:00:00Z *)
 Definition HOUR : Z := 3600000000000.
